@@ -204,7 +204,12 @@ def make_mesh(mrec):
     p = np.array(mrec['p'], dtype=np.float64) / sc
     with warnings.catch_warnings():
         warnings.simplefilter('ignore')
-        return U.make(mrec['kind'], p, mrec['t'])
+        m = U.make(mrec['kind'], p, mrec['t'])
+        if mrec.get('order', 1) == 2:        # second-order geometry (straight): same cells, extra geometry nodes
+            import skfem
+            m = {'tri': skfem.MeshTri2, 'quad': skfem.MeshQuad2, 'tet': skfem.MeshTet2,
+                 'hex': skfem.MeshHex2}[mrec['kind']].from_mesh(m)
+        return m
 
 
 def mesh_rec(kind, p, t, scale=1):
@@ -277,6 +282,10 @@ def universe_meshes(rng, tier, with_wedge=True, big=False):
         add('UW', 'wedge', *U.wedge_extrude(p2, t2, 2), variants=0)
         p2, t2 = U.tri_lattice(2, 1, (0, 1))
         add('UW', 'wedge', *U.wedge_extrude(p2, t2, 1), variants=0)
+    # second-order (isoparametric, straight) variants of the same cells
+    for kind, (p, t) in (('tri', U.tri_lattice(2, 1, (0, 1))), ('quad', U.quad_grid(2, 1)),
+                         ('tet', U.tet_cubes(1, 5)), ('hex', U.hex_grid(2, 1, 1))):
+        out.append(('order2', dict(mesh_rec(kind, p, t), order=2)))
     # random tier: integer Delaunay
     nrand = 40 if thorough else 6
     for j in range(nrand):
@@ -353,7 +362,7 @@ def loc_info(mesh, elem, doflocs):
     refl = []
     for row in ref:
         refl.append([] if not np.isfinite(row).all() else [int(round(float(x) * L)) for x in row])
-    pint = int_coords(mesh.p, sc)
+    pint = int_coords(mesh.p[:, :int(mesh.nvertices)], sc)     # second-order meshes carry extra geometry nodes
     glob = np.asarray(doflocs, dtype=float)
     out = []
     den = L ** MAPDEG[kind]
